@@ -214,6 +214,41 @@ def fam_storm(rng, pid):
     return p
 
 
+def fam_cycles(rng, pid):
+    """repeated Stop / Pause / Restart cycles of one worker (with and without context and idle expiry), a little work in between:
+    nothing may accumulate - goroutines, idle workers, listeners, tickers"""
+    b = Builder(rng, 'cycles', pid)
+    cfg = base_cfg(rng, conc=rng.choice([1, 1, 2, 3]))
+    cfg['ctx'] = rng.random() < 0.4
+    cfg['expiry_us'] = rng.choice([0, 0, 300])
+    cfg['ratio'] = rng.choice([0, 0, 50, 100])
+    pr = PRIOS if cfg['queues'][0] == 'prio' else None
+    ops = []
+    for _ in range(rng.choice([2, 3, 4])):
+        if rng.random() < 0.5:
+            ops.append(b.add(0, pr))
+        r = rng.random()
+        if r < 0.3:
+            ops += [{'op': 'Stop'}, {'op': 'Restart'}]
+        elif r < 0.55:
+            ops += [{'op': rng.choice(['Pause', 'PauseAndWait'])}, {'op': 'Restart'}]
+        elif r < 0.75:
+            ops += [{'op': 'Restart'}]
+        elif r < 0.9:
+            ops += [{'op': 'WaitAndStop'}, {'op': 'Restart'}]
+        else:
+            ops += [{'op': 'Pause'}, {'op': 'Resume'}]
+        if rng.random() < 0.3:
+            ops.append({'op': 'NumIdle'})
+    ops += [b.add(0, pr), {'op': 'WUF'}, {'op': 'NumIdle'}]
+    if rng.random() < 0.3:
+        ops.append({'op': 'Stop'})
+    b.client('ctl', ops)
+    if rng.random() < 0.3:
+        b.client('insp', inspector(rng))
+    return b.prog(cfg)
+
+
 def fam_stop2(rng, pid):
     """several clients stop / restart / resume the worker at the same time while jobs are pending or in flight"""
     b = Builder(rng, 'stop2', pid)
@@ -635,7 +670,7 @@ def life_exhaustive(maxlen, seed, prefix):
     return out
 
 
-FAMILIES = {'storm': fam_storm, 'stop2': fam_stop2, 'reject': fam_reject, 'multim': fam_multim, 'life': fam_life, 'distbind': fam_distbind, 'bind2': fam_bind2, 'tune': fam_tune, 'adapter': fam_adapter, 'dist': fam_dist, 'basic': fam_basic, 'barrier': fam_barrier, 'ctl': fam_ctl, 'cancel': fam_cancel, 'batch': fam_batch,
+FAMILIES = {'cycles': fam_cycles, 'storm': fam_storm, 'stop2': fam_stop2, 'reject': fam_reject, 'multim': fam_multim, 'life': fam_life, 'distbind': fam_distbind, 'bind2': fam_bind2, 'tune': fam_tune, 'adapter': fam_adapter, 'dist': fam_dist, 'basic': fam_basic, 'barrier': fam_barrier, 'ctl': fam_ctl, 'cancel': fam_cancel, 'batch': fam_batch,
             'handle': fam_handle, 'pool': fam_pool, 'multi': fam_multi}
 
 
